@@ -284,7 +284,11 @@ func c05Osc52ish(rng *rand.Rand) []byte {
 func c05Traceish(rng *rand.Rand) []byte {
 	en, dis := "<ENABLE_TRZSZ_TRACE_LOG>", "<DISABLE_TRZSZ_TRACE_LOG>"
 	m := []string{en, dis}[rng.Intn(2)]
-	switch rng.Intn(6) {
+	switch rng.Intn(8) {
+	case 6:
+		m = m[:len(m)-1] // the closing '>' missing
+	case 7:
+		m = m[:len(m)-1] + " >"
 	case 0:
 		m = m[:1+rng.Intn(len(m)-1)]
 	case 1:
@@ -316,7 +320,8 @@ type c05Paths struct {
 	root   string
 	exist  []string // existing regular files and directories (absolute)
 	isDir  map[string]bool
-	absent []string
+	absent []string // not draggable: missing, or not a regular file / directory
+	other  []string // exist, but are neither regular files nor directories
 }
 
 func c05MakePaths(work string) *c05Paths {
@@ -336,6 +341,11 @@ func c05MakePaths(work string) *c05Paths {
 	for _, n := range []string{"nope", "a.tx", "a.txt2", "dir", "d2/none", "b"} {
 		p.absent = append(p.absent, filepath.Join(p.root, n))
 	}
+	// exists, but is neither a regular file nor a directory: not draggable
+	if fi, err := os.Stat("/dev/null"); err == nil && !fi.IsDir() && !fi.Mode().IsRegular() {
+		p.other = append(p.other, "/dev/null")
+		p.absent = append(p.absent, "/dev/null")
+	}
 	return p
 }
 
@@ -348,6 +358,9 @@ func (p *c05Paths) table() string {
 			k = "d"
 		}
 		parts = append(parts, hx([]byte(f))+":"+k)
+	}
+	for _, f := range p.other {
+		parts = append(parts, hx([]byte(f))+":o")
 	}
 	return strings.Join(parts, ",")
 }
